@@ -1212,6 +1212,9 @@ where
         }
 
         std::mem::swap(args, &mut best_args);
+        // the best effort state keeps what the failed attempt consumed, but the caller gets its
+        // own scope back: items outside of the attempted block (such as --help) stay visible
+        args.set_scope(original_scope);
         Err(Error(best_error))
     }
 
